@@ -262,11 +262,30 @@ def ref_table(ref, which):
     return ref[which]
 
 
+def run_mixed(ctx):
+    """one unparsable and one failing rules file: the exit code must not depend on the output mode or the order"""
+    d = os.path.join(ctx.wd, 'mixed')
+    e2e.write_files(d, {'f.guard': 'rule f { n == 12345 }\n', 'b.guard': 'rule b { n == \n', 'd.json': '{"n": 1}'})
+    jobs, labels = [], []
+    for order in (['f.guard', 'b.guard'], ['b.guard', 'f.guard']):
+        for lab, fl in (('plain', []), ('s-json', ['--structured', '-o', 'json', '-S', 'none']), ('s-yaml', ['--structured', '-o', 'yaml', '-S', 'none']),
+                        ('s-sarif', ['--structured', '-o', 'sarif', '-S', 'none']), ('s-junit', ['--structured', '-o', 'junit', '-S', 'none'])):
+            jobs.append({'args': ['validate', '-r', order[0], '-r', order[1], '-d', 'd.json'] + fl, 'cwd': d})
+            labels.append('%s(%s,%s)' % (lab, order[0], order[1]))
+    res = e2e.run_many(jobs)
+    codes = {lab: r[0] for lab, r in zip(labels, res)}
+    ctx.coverage['mixed_parse_error_and_fail_exit_codes'] = codes
+    if len(set(codes.values())) != 1:
+        ctx.failing('a parse error together with a FAIL: the exit code depends on the output mode / argument order: %s' % codes,
+                    {'class': 'mixed-parse-error-and-fail', 'codes': codes, 'rules': ['rule f { n == 12345 }', 'rule b { n == '], 'data': '{"n": 1}'}, found=True)
+
+
 def run(ctx):
     ctx.build(cli=True)
     pr = ctx.proofs('C07')
     thorough = ctx.tier == 'thorough'
     n = run_cross(ctx, 300 if thorough else 36, thorough)
+    run_mixed(ctx)
     ctx.coverage['distinct_nontrivial'] = n
     ctx.coverage['rule'] = ('scenario = generated rules file x document (JSON-compatible), run in 18 configurations (console summary with -S all/pass/fail/skip/none, '
                             '-v, -p, -o json, -o yaml, --structured json/yaml/sarif/junit, stdin, --payload) and through run_checks (verbose and not); distinct = '
